@@ -50,6 +50,11 @@ pub enum SOp {
     ListDir(u8),
     IsDir(u8),
     Tmpfile,
+    /// a pipe, both ends switched to non-blocking mode at once (two slots)
+    Pipe,
+    /// a large write (pipe capacity questions are not compared: only used on
+    /// regular files)
+    BigWrite(u8),
 }
 
 #[derive(Clone, Debug, Serialize, Deserialize, PartialEq)]
@@ -129,6 +134,7 @@ pub fn generate(rng: &mut Rng, long: bool) -> SHist {
             }
             27 => SOp::ListDir(path(rng)),
             28 => SOp::IsDir(path(rng)),
+            29 if rng.bool() => SOp::Pipe,
             _ => SOp::Tmpfile,
         });
     }
@@ -152,12 +158,18 @@ fn errname(e: Errno) -> String {
 /// directory the history started in (its name is hidden in `getcwd` results).
 pub fn run_ops<S>(sys: &S, h: &SHist, base: &str) -> Vec<String>
 where
-    S: Open + Close + Read + Write + Seek + Dup + Fcntl + Fstat + Umask + GetCwd + Chdir,
+    S: Open + Close + Read + Write + Seek + Dup + Fcntl + Fstat + Umask + GetCwd + Chdir + yash_env::system::Pipe,
 {
     let mut slots: Vec<Option<Fd>> = vec![None; 5];
     let mut out = Vec::new();
     let mut counter: u8 = 0;
-    let stat_line = |st: &S::Stat| format!("type={:?} size={} perm={:o}", st.r#type(), if st.is_directory() { 0 } else { st.size() }, st.mode().bits() & 0o7777);
+    let stat_line = |st: &S::Stat| {
+        if st.is_fifo() {
+            // (size and permission bits of an anonymous pipe are unspecified)
+            return "type=Fifo".to_string();
+        }
+        format!("type={:?} size={} perm={:o}", st.r#type(), if st.is_directory() { 0 } else { st.size() }, st.mode().bits() & 0o7777)
+    };
     for op in &h.ops {
         let line = match op {
             SOp::Open(p, access, flags, mode) => {
@@ -299,6 +311,8 @@ where
                 }
                 None => "setfd: -".into(),
             },
+            // (a blocking pipe would make the real side wait for ever)
+            SOp::Nonblock(s, _) if slots[*s as usize].is_some_and(|fd| sys.fstat(fd).is_ok_and(|st| st.is_fifo())) => "nonblock: (pipe)".into(),
             SOp::Nonblock(s, on) => match slots[*s as usize] {
                 Some(fd) => format!("nonblock: {:?}", sys.get_and_set_nonblocking(fd, *on).map_err(errname)),
                 None => "nonblock: -".into(),
@@ -349,6 +363,24 @@ where
                 let path = CString::new(PATHS[*p as usize]).unwrap();
                 format!("isdir: {}", sys.is_directory(&path))
             }
+            SOp::BigWrite(_) => "bigwrite: -".into(),
+            SOp::Pipe => match sys.pipe() {
+                Err(e) => format!("pipe: {}", errname(e)),
+                Ok((r, w)) => {
+                    sys.get_and_set_nonblocking(r, true).ok();
+                    sys.get_and_set_nonblocking(w, true).ok();
+                    let free: Vec<usize> = slots.iter().enumerate().filter(|(_, s)| s.is_none()).map(|(k, _)| k).collect();
+                    if free.len() >= 2 {
+                        slots[free[0]] = Some(r);
+                        slots[free[1]] = Some(w);
+                        format!("pipe: ok slots {} {}", free[0], free[1])
+                    } else {
+                        sys.close(r).ok();
+                        sys.close(w).ok();
+                        "pipe: ok (closed)".into()
+                    }
+                }
+            },
             SOp::Tmpfile => match sys.open_tmpfile(yash_env::path::Path::new("/tmp")) {
                 Err(e) => format!("tmpfile: {}", errname(e)),
                 Ok(fd) => {
@@ -415,6 +447,9 @@ pub fn real_sys_main() -> ! {
     let mut input = String::new();
     std::io::stdin().read_to_string(&mut input).ok();
     let hists: Vec<SHist> = serde_json::from_str(&input).unwrap_or_default();
+    // SAFETY: plain libc call; a write to a pipe without readers must fail with
+    // EPIPE here as it does in the simulated kernel (which has no SIGPIPE)
+    unsafe { libc::signal(libc::SIGPIPE, libc::SIG_IGN) };
     let root = std::env::current_dir().unwrap();
     // SAFETY: the only RealSystem instance in this single-threaded process.
     let sys = unsafe { yash_env::system::real::RealSystem::new() };
@@ -467,9 +502,30 @@ pub fn run_real_batch(hists: &[SHist]) -> Option<Vec<Vec<String>>> {
             .spawn()
             .ok()?;
         child.stdin.take()?.write_all(serde_json::to_string(std::slice::from_ref(h)).ok()?.as_bytes()).ok()?;
-        let out = child.wait_with_output().ok()?;
+        let start = std::time::Instant::now();
+        let finished = loop {
+            match child.try_wait() {
+                Ok(Some(_)) => break true,
+                Ok(None) if start.elapsed().as_secs() >= 10 => {
+                    child.kill().ok();
+                    child.wait().ok();
+                    break false;
+                }
+                Ok(None) => std::thread::sleep(std::time::Duration::from_millis(1)),
+                Err(_) => break false,
+            }
+        };
+        let mut stdout = Vec::new();
+        if let Some(mut so) = child.stdout.take() {
+            use std::io::Read as _;
+            so.read_to_end(&mut stdout).ok();
+        }
         let _ = std::fs::remove_dir_all(&dir);
-        let mut r: Vec<Vec<String>> = serde_json::from_slice(&out.stdout).ok()?;
+        if !finished {
+            all.push(vec!["<the real side did not finish within 10 s>".to_string()]);
+            continue;
+        }
+        let mut r: Vec<Vec<String>> = serde_json::from_slice(&stdout).ok()?;
         all.push(r.pop()?);
     }
     Some(all)
